@@ -12,7 +12,7 @@ Oracle: the property restated on the implementation alone (no model): every deco
 a generous wall-clock bound, raises only an exception of the documented kinds, calls
 deserialize_value at most |bs|/2+1 times and stream.read at most twice per call, never asks the
 stream for more than the 1 MiB cap, gets back at most |bs| bytes, and returns only base types and
-instances of registered classes.  Wall time and tracemalloc peak per input are MEASURED against
+instances of registered classes; decoding the same shape with 4x the elements costs at most ~7x the time.  Wall time and tracemalloc peak per input are MEASURED against
 c*|bs| and reported (notes); they are not proved.
 """
 import io, os, sys, time, struct, signal, tracemalloc
@@ -369,6 +369,13 @@ def _run(run):
         for tag in (13, 14):
             cases.append(("length-full", FR, struct.pack(">H", tag) + struct.pack(">Hl", 5, n) + b"a" * min(n, 2 ** 20)))
             cases.append(("length-short", FR, struct.pack(">H", tag) + struct.pack(">Hl", 5, n) + b"a" * 10))
+    # nested containers each declaring the full 16384 elements with a single one present: the first missing
+    # element must end every loop (an implementation that went on would need 16384^k iterations)
+    for tag in (16, 17, 18):
+        for k in (1, 2, 3, 10, 250):
+            unit = struct.pack(">H", tag) + struct.pack(">Hl", 5, 2 ** 14) + (b"\x00\x0f" if tag == 17 else b"")
+            cases.append(("length-nested", FR, unit * k + b"\x00\x0f"))
+            cases.append(("length-nested", FR, unit * k))
     # ---- nesting
     depths = list(range(1, 101, 1 if T else 7)) + [100, 150, 400, 2000, 3000]
     cdeep = []          # class nesting beyond CPython's C-recursion limit: oracle only (see ASSUMPTIONS)
@@ -446,7 +453,8 @@ def _run(run):
             if any(a > SL.MAXB or (a >= 0 and k > a) for a, k in st.log):
                 run.oracle_violation("read-above-cap", dict(case, log=st.log[:20]), site)
             if res[0] == 0 and not closed_over(value, classes):
-                run.oracle_violation("result-not-closed", dict(case, value=repr(value)[:200]), site)
+                run.oracle_violation("result-not-closed", dict(case, value_type=type(value).__name__,
+                                                                  value=lib.jsonable(SL.to_wire(value))[:6]), site)
             if dt > 0.5 + 2e-5 * n:
                 # a garbage collection of the harness's own millions of objects can land in one measurement: repeat it
                 for _ in range(3):
@@ -522,6 +530,44 @@ def _run(run):
     run.notes.append("MEASURED (not proved): max wall time per input %.4f s; max wall time per byte (inputs >= 64 B) %.2e s; "
                      "tracemalloc peak over %d sampled inputs: max %d B, worst peak/(|bs|+64) = %.1f at %s"
                      % (maxima["time_abs"], maxima["time_per_byte"], len(sample), worst_abs, worst[0], worst[1]))
+
+    # ---- measurement of scaling: the same shape at n and 4n elements must not cost much more than 4x the time
+    def hdr(tag, n):
+        return struct.pack(">H", tag) + struct.pack(">Hl", 5, n)
+    shapes = {
+        "seq-none": lambda n: hdr(16, n) + b"\x00\x0f" * n,
+        "seq-object": lambda n: hdr(16, n) + (struct.pack(">H", SL.VfMix.type_id) + b"\x00\x03\x00") * n,
+        "seq-enum": lambda n: hdr(16, n) + (struct.pack(">H", tid_enum) + b"\x00\x03\x01") * n,
+        "set-int64": lambda n: hdr(18, n) + b"".join(struct.pack(">Hq", 6, i << 40) for i in range(n)),
+        "map-int-none": lambda n: hdr(17, n) + b"".join(struct.pack(">Hl", 5, i * 65537) + b"\x00\x0f" for i in range(n)),
+        "bytes": lambda n: hdr(14, 64 * n) + b"a" * (64 * n),
+        "str": lambda n: hdr(13, 64 * n) + b"\xc3\xa9" * (32 * n),
+        "nest-seq": lambda n: b"\x00\x10\x00\x03\x01" * (n // 16) + b"\x00\x0f",
+        "nest-enum": lambda n: struct.pack(">H", tid_enum) * (n // 32) + b"\x00\x03\x01",
+        "nest-seq-truncated": lambda n: b"\x00\x10\x00\x03\x01" * (n // 16),
+    }
+
+    def best(data):
+        b = None
+        for _ in range(5):
+            t1 = time.perf_counter()
+            try:
+                decode_limited(12000, data, reg)
+            except BaseException:      # noqa
+                pass
+            d = time.perf_counter() - t1
+            b = d if b is None else min(b, d)
+        return b
+    scal = []
+    for name, mk in shapes.items():
+        n = 4096
+        t1, t4 = best(mk(n)), best(mk(4 * n))
+        scal.append("%s %.1fx" % (name, t4 / max(t1, 1e-9)))
+        run.count("scaling_shapes")
+        if t4 > 7 * t1 + 0.003:
+            run.oracle_violation("superlinear-time", {"family": "scaling-" + name, "n": n, "t_n": round(t1, 5), "t_4n": round(t4, 5)},
+                                 "serializable.py:deserialize_value")
+    run.notes.append("MEASURED (not proved): time(4n)/time(n) per shape, n = 4096 elements: " + ", ".join(scal))
 
     # ---- the two handshake receivers of the server
     hs_run(run, hello, shello)
